@@ -158,15 +158,16 @@ func (a *attached) measurable(c Case) bool {
 }
 
 type runner struct {
-	c      Case
-	s      *inproc.Server
-	p, p2  *lalclient.Publisher
-	cons   []*attached
-	c2     *attached
-	P, P2  []lalclient.Rec
-	lat    latency
-	ticks  uint32
-	inStal bool // the stall phase is running: slow messages are sampled for a parked fan-out
+	c                  Case
+	s                  *inproc.Server
+	p, p2              *lalclient.Publisher
+	cons               []*attached
+	c2                 *attached
+	P, P2              []lalclient.Rec
+	lat                latency
+	ticks              uint32
+	httpWriteTimeoutMs int
+	inStal             bool // the stall phase is running: slow messages are sampled for a parked fan-out
 }
 
 func nalHdrs(c gen.Codecs) (inter, key []byte) {
@@ -350,6 +351,9 @@ func (r *runner) attach(name string, k Cons, q int, sdpReady bool) (*attached, *
 	wt := 150
 	if k.Stall && k.End == "sweep" {
 		wt = 10000
+	}
+	if r.httpWriteTimeoutMs > 0 {
+		wt = r.httpWriteTimeoutMs // write-timeout sub-properties: a generated timeout per consumer
 	}
 	httpflv.SubSessionWriteTimeoutMs, httpts.SubSessionWriteTimeoutMs = wt, wt
 	switch k.Kind {
